@@ -245,8 +245,29 @@ def forbidden_tokens():
 
 
 def audit(prop_id, modules, theorems):
-    """`#print axioms` for every listed theorem. Returns dict name -> (ok, axioms|error)."""
+    """`#print axioms` for every listed theorem. Returns dict name -> (ok, axioms|error).
+
+    The outcome is a function of the Lean sources (hand-written and generated), the module and theorem lists: it is
+    kept under lean/.audit/ keyed by their hash and reused when nothing changed (the proof modules have been built
+    by `lake build` just before, itself a no-op then).  A fresh checkout has no such file: the first run of every
+    check there audits for real.  `VERIF_NO_AUDIT_CACHE=1` switches the reuse off."""
+    import hashlib
     os.makedirs(os.path.join(LEAN, ".audit"), exist_ok=True)
+    h = hashlib.sha256()
+    for root, dirs, files in os.walk(LEAN):
+        dirs[:] = sorted(d for d in dirs if not d.startswith("."))
+        for fn in sorted(files):
+            if fn.endswith(".lean") or fn in ("lakefile.toml", "lake-manifest.json"):
+                h.update(fn.encode())
+                h.update(open(os.path.join(root, fn), "rb").read())
+    h.update(repr((modules, theorems)).encode())
+    cache = os.path.join(LEAN, ".audit", f"cache_{prop_id}_{h.hexdigest()[:24]}.json")
+    if os.environ.get("VERIF_NO_AUDIT_CACHE") != "1" and os.path.exists(cache):
+        try:
+            c = json.load(open(cache))
+            return {t: (v[0], v[1]) for t, v in c["res"].items()}, c["out"]
+        except (OSError, ValueError, KeyError):
+            pass
     path = os.path.join(LEAN, ".audit", f"Audit_{prop_id}_{os.getpid()}.lean")
     with open(path, "w") as f:
         for m in modules:
@@ -271,6 +292,15 @@ def audit(prop_id, modules, theorems):
             continue
         axs = set() if m.group(2) is None else {a.strip() for a in m.group(2).split(",") if a.strip()}
         res[t] = (axs <= ALLOWED_AXIOMS, sorted(axs))
+    if r.returncode == 0 and all(ok for ok, _ in res.values()):
+        # (only a clean audit is kept: anything else is re-done, with its output, on the next run)
+        try:
+            tmp = cache + f".tmp{os.getpid()}"
+            with open(tmp, "w") as f:
+                json.dump({"res": {t: [ok, ax] for t, (ok, ax) in res.items()}, "out": out[-4000:]}, f)
+            os.replace(tmp, cache)
+        except OSError:
+            pass
     return res, out
 
 
